@@ -522,7 +522,7 @@ class SplineGeometry(Geometry):
 
     @cpsize.setter
     def cpsize(self, value):
-        self._control_points_size = value
+        self._control_points_size = list(value)  # a list of its own: the sizes of the object they were read from stay as they are
 
     @property
     def ctrlpts_size(self):
@@ -1464,7 +1464,9 @@ class Surface(SplineGeometry):
             raise ValueError("Control points size cannot be less than and equal to zero")
 
         # Assume that user is doing this right
-        self._control_points_size[0] = value
+        sizes = list(self._control_points_size)  # a new list: the sizes read before stay as they are
+        sizes[0] = value
+        self._control_points_size = sizes
 
     @property
     def ctrlpts_size_v(self):
@@ -1486,7 +1488,9 @@ class Surface(SplineGeometry):
             raise ValueError("Control points size cannot be less than and equal to zero")
 
         # Assume that user is doing this right
-        self._control_points_size[1] = value
+        sizes = list(self._control_points_size)  # a new list: the sizes read before stay as they are
+        sizes[1] = value
+        self._control_points_size = sizes
 
     @property
     def sample_size_u(self):
@@ -2518,7 +2522,9 @@ class Volume(SplineGeometry):
             raise ValueError("Control points size cannot be less than and equal to zero")
 
         # Assume that user is doing this right
-        self._control_points_size[0] = value
+        sizes = list(self._control_points_size)  # a new list: the sizes read before stay as they are
+        sizes[0] = value
+        self._control_points_size = sizes
 
     @property
     def ctrlpts_size_v(self):
@@ -2540,7 +2546,9 @@ class Volume(SplineGeometry):
             raise ValueError("Control points size cannot be less than and equal to zero")
 
         # Assume that user is doing this right
-        self._control_points_size[1] = value
+        sizes = list(self._control_points_size)  # a new list: the sizes read before stay as they are
+        sizes[1] = value
+        self._control_points_size = sizes
 
     @property
     def ctrlpts_size_w(self):
@@ -2562,7 +2570,9 @@ class Volume(SplineGeometry):
             raise ValueError("Control points size cannot be less than and equal to zero")
 
         # Assume that user is doing this right
-        self._control_points_size[2] = value
+        sizes = list(self._control_points_size)  # a new list: the sizes read before stay as they are
+        sizes[2] = value
+        self._control_points_size = sizes
 
     @property
     def sample_size_u(self):
